@@ -1,5 +1,7 @@
 import NrDaemon.Lemmas.Proc
 import NrDaemon.Lemmas.Lifecycle
+import NrDaemon.Lemmas.AppKey
+import NrDaemon.Gen.AppKey
 /-!
   C04 — applications are isolated from each other.
 -/
@@ -87,3 +89,110 @@ theorem C04_identity_stable (s : PState) (es : List PEvent) (h : String) (c : Ap
       · exact Or.inl h2
       · exact Or.inr ⟨e :: es1, es2, by simp [he], hn⟩
     · exact Or.inr ⟨[e], es, rfl, h1⟩
+
+/-! ## Identity of an application (`AppInfo.Key`, `getSupportedPoliciesHash`; `Model/AppKey.lean`) -/
+
+/-- **C04 (what the code compares).**  Two descriptions have the same key iff they agree on license, name, redirect
+collector, high-security flag, language, host name, trace-observer host and port, and on the *concatenation* of the
+sorted names of their supported policies (the bytes that are hashed). -/
+theorem C04_appkey_components (a b : AppDesc) :
+    appKey a = appKey b ↔
+      (a.license = b.license ∧ a.appname = b.appname ∧ a.redirect = b.redirect ∧ a.highSec = b.highSec ∧
+       a.lang = b.lang ∧ hashInput a = hashInput b ∧ a.host = b.host ∧ a.toHost = b.toHost ∧ a.toPort = b.toPort) := by
+  constructor
+  · intro h
+    have := congrArg AppKeyM.license h; have := congrArg AppKeyM.appname h; have := congrArg AppKeyM.redirect h
+    have := congrArg AppKeyM.highSec h; have := congrArg AppKeyM.lang h; have := congrArg AppKeyM.policiesInput h
+    have := congrArg AppKeyM.host h; have := congrArg AppKeyM.toHost h; have := congrArg AppKeyM.toPort h
+    simp_all [appKey]
+  · rintro ⟨h1, h2, h3, h4, h5, h6, h7, h8, h9⟩
+    simp [appKey, h1, h2, h3, h4, h5, h6, h7, h8, h9]
+
+/-- the sorted list of supported names is a canonical form of the *set* of supported policies -/
+theorem C04_supported_canonical (a b : AppDesc) :
+    supportedNames a = supportedNames b ↔
+      ((a.policies.filter (·.2)).map (·.1)).Perm ((b.policies.filter (·.2)).map (·.1)) :=
+  mergeSort_bytes_eq_iff _ _
+
+/-- **C04 (same application iff the eight components agree) — partial.**  The statement of the property, for policy
+names that are non-empty and of which none is a proper prefix of another (true of the agent's vocabulary, see
+`C04_policy_vocabulary_prefix_free`).  What is missing for arbitrary names is `C04_appkey_collision`. -/
+theorem C04_appkey_iff_partial (a b : AppDesc)
+    (hne : ∀ n, (n ∈ supportedNames a ∨ n ∈ supportedNames b) → n ≠ [])
+    (hpf : ∀ x y, (x ∈ supportedNames a ∨ x ∈ supportedNames b) → (y ∈ supportedNames a ∨ y ∈ supportedNames b) →
+      x <+: y → x = y) :
+    appKey a = appKey b ↔ sameIdentity a b := by
+  rw [C04_appkey_components]
+  unfold sameIdentity
+  constructor
+  · rintro ⟨h1, h2, h3, h4, h5, h6, h7, h8, h9⟩
+    exact ⟨h1, h2, h3, h4, h5, flatten_inj_of_prefixFree _ _ hne hpf h6, h7, h8, h9⟩
+  · rintro ⟨h1, h2, h3, h4, h5, h6, h7, h8, h9⟩
+    exact ⟨h1, h2, h3, h4, h5, by unfold hashInput; rw [h6], h7, h8, h9⟩
+
+/-- one direction holds for all names: descriptions that agree on the eight components have the same key -/
+theorem C04_same_identity_same_key (a b : AppDesc) (h : sameIdentity a b) : appKey a = appKey b := by
+  rw [C04_appkey_components]
+  obtain ⟨h1, h2, h3, h4, h5, h6, h7, h8, h9⟩ := h
+  exact ⟨h1, h2, h3, h4, h5, by unfold hashInput; rw [h6], h7, h8, h9⟩
+
+private def exA : AppDesc :=
+  { license := [76], appname := [97], redirect := [], highSec := false, lang := [112], host := [104], toHost := [], toPort := 0,
+    policies := [([97, 98], true), ([99], true)] }      -- supports "ab", "c"
+private def exB : AppDesc := { exA with policies := [([97], true), ([98, 99], true)] }   -- supports "a", "bc"
+
+/-- **C04 (the unrestricted statement is false of the code).**  Names are concatenated without a separator before
+hashing: an application supporting the policies `ab`, `c` and one supporting `a`, `bc` differ in their supported
+policies and have the same key.  Replayed on the implementation by `corpus/C04/policy_concat.ops` (known finding). -/
+private theorem sn_exA : supportedNames exA = [[97, 98], [99]] := by
+  show List.mergeSort [[97, 98], [99]] bytesLe = _
+  exact List.mergeSort_of_pairwise (by decide)
+private theorem sn_exB : supportedNames exB = [[97], [98, 99]] := by
+  show List.mergeSort [[97], [98, 99]] bytesLe = _
+  exact List.mergeSort_of_pairwise (by decide)
+
+theorem C04_appkey_collision : ∃ a b : AppDesc, ¬ sameIdentity a b ∧ appKey a = appKey b := by
+  refine ⟨exA, exB, ?_, ?_⟩
+  · intro h
+    have h6 := h.2.2.2.2.2.1
+    rw [sn_exA, sn_exB] at h6
+    exact absurd h6 (by decide)
+  · rw [C04_appkey_components]
+    refine ⟨rfl, rfl, rfl, rfl, rfl, ?_, rfl, rfl, rfl⟩
+    unfold hashInput
+    rw [sn_exA, sn_exB]
+    decide
+
+/-- fields that are not part of the identity never influence the key -/
+theorem C04_appkey_ignores_rest (a : AppDesc) (v d t k : Bytes) (q : Nat) (ps : List (Bytes × Bool))
+    (hps : (ps.filter (·.2)).map (·.1) = (a.policies.filter (·.2)).map (·.1)) :
+    appKey { a with agentVersion := v, displayName := d, token := t, dockerId := k, spanQueue := q, policies := ps } = appKey a := by
+  simp [appKey, hashInput, supportedNames, hps]
+
+/-- the policy names the PHP agent knows (agent/php_txn.c, axiom/nr_txn.c) -/
+def agentPolicyVocabulary : List String :=
+  ["record_sql", "allow_raw_exception_messages", "custom_events", "custom_parameters",
+   "custom_instrumentation_editor", "message_parameters", "job_arguments", "attributes_include"]
+
+/-- … are non-empty and none is a prefix of another, so `C04_appkey_iff_partial` applies to every pair of
+descriptions built from them -/
+theorem C04_policy_vocabulary_prefix_free :
+    (agentPolicyVocabulary.all (fun x => x.toList ≠ [])) = true ∧
+    (agentPolicyVocabulary.all (fun x => agentPolicyVocabulary.all (fun y => !(x.toList.isPrefixOf y.toList) || x == y))) = true := by
+  decide
+
+/-- **C04 (tie).**  The key has exactly these nine fields, `(*AppInfo).Key()` fills each from the description field the
+model uses, `(*App).Key()` delegates, and the policy hash skips unsupported policies, sorts, joins with the empty
+separator and hashes with SHA-256 — as regenerated from app.go / lasp.go. -/
+theorem C04_appkey_tied :
+    Gen.AppKey.fields = ["License:collector.LicenseKey", "Appname:string", "RedirectCollector:string", "HighSecurity:bool",
+      "AgentLanguage:string", "AgentPolicies:string", "AgentHostname:string", "TraceObserverHost:string",
+      "TraceObserverPort:uint16"] ∧
+    Gen.AppKey.keyOf = ["License:info.License", "Appname:info.Appname", "RedirectCollector:info.RedirectCollector",
+      "HighSecurity:info.HighSecurity", "AgentLanguage:info.AgentLanguage",
+      "AgentPolicies:info.SupportedSecurityPolicies.getSupportedPoliciesHash()", "AgentHostname:info.Hostname",
+      "TraceObserverHost:info.TraceObserverHost", "TraceObserverPort:info.TraceObserverPort"] ∧
+    Gen.AppKey.appDelegates = true ∧ Gen.AppKey.hashSkipsUnsupported = true ∧
+    Gen.AppKey.hashCollects = "policies=append(policies,name)" ∧ Gen.AppKey.hashSorts = true ∧
+    Gen.AppKey.hashJoinSep = "\"\"" ∧ Gen.AppKey.hashFn = "sha256.New" := by
+  decide
